@@ -131,8 +131,8 @@ def i_LDI(i_, fmap):
 def i_LDIR(i_, fmap):
     i_LDI(i_, fmap)
     fmap[pf] = bit0
-    if fmap[bc] != 0:
-        fmap[pc] = fmap[pc] - i_.length
+    # the instruction repeats (pc stays on it) while bc is not zero:
+    fmap[pc] = tst(fmap[bc] != 0, fmap[pc] - i_.length, fmap[pc])
 
 
 def i_LDD(i_, fmap):
@@ -149,8 +149,8 @@ def i_LDD(i_, fmap):
 def i_LDDR(i_, fmap):
     i_LDD(i_, fmap)
     fmap[pf] = bit0
-    if fmap[bc] != 0:
-        fmap[pc] = fmap[pc] - i_.length
+    # the instruction repeats (pc stays on it) while bc is not zero:
+    fmap[pc] = tst(fmap[bc] != 0, fmap[pc] - i_.length, fmap[pc])
 
 
 def i_CPI(i_, fmap):
